@@ -115,6 +115,8 @@ func runC03(w *World, r *Report) {
 	r.Rule("layout", "every specified field is written at its specified offset, width and byte order from the mapped Go field", 330)
 	r.Rule("presence", "setters of optional parts set the specified presence bit", 6)
 	r.Rule("lanes", "packed header words carry their sub-fields at the specified bits", 1)
+	r.Rule("union", "setters of alternative readings of one wire slot assign every field of the slot group", 2)
+	unionRule(w, r)
 	layouts, err := loadLayouts()
 	if err != nil {
 		r.Fail(VUnmapped, "layout", "spec/layout.json", "", "-", err.Error())
@@ -301,6 +303,68 @@ func runC03(w *World, r *Report) {
 		}
 		if nOK == 0 && len(paths) == 0 {
 			r.Fail(VUndecided, "lanes", fi.Key, "", pos, "no path")
+		}
+	}
+}
+
+// unionGroups: wire slots with alternative readings selected by a discriminant field (specification-derived).
+// A setter that assigns one member and leaves another as an earlier setter left it encodes a mixture.
+var unionGroups = []struct {
+	Kind   string
+	Fields []string
+	Cite   string
+}{
+	{"openflow13.NXActionConnTrack", []string{"$.ZoneSrc", "$.ZoneOfsNbits"},
+		"nicira-ext.h nx_action_conntrack: zone_src == 0 selects zone_imm, otherwise zone_ofs_nbits addresses bits of the register zone_src"},
+}
+
+func unionRule(w *World, r *Report) {
+	for _, g := range unionGroups {
+		k := w.Kinds[g.Kind]
+		if k == nil {
+			r.Fail(VViolation, "union", g.Kind, "", "-", "kind with a union slot no longer exists")
+			continue
+		}
+		in := map[string]bool{}
+		for _, f := range g.Fields {
+			in[f] = true
+		}
+		n := 0
+		for _, m := range w.methodsOf(k) {
+			if isCodecMethod(m.Decl.Name.Name) {
+				continue
+			}
+			fs := w.Interpret(m, "builder")
+			set := map[string]bool{}
+			cond := map[string]bool{}
+			for _, s := range fs.Stores {
+				if in[s.Path] {
+					if s.Op == "=" && s.Guard == "" && !s.Loop {
+						set[s.Path] = true
+					} else {
+						cond[s.Path] = true
+					}
+				}
+			}
+			if len(set) == 0 && len(cond) == 0 {
+				continue
+			}
+			n++
+			var missing []string
+			for _, f := range g.Fields {
+				if !set[f] {
+					missing = append(missing, f)
+				}
+			}
+			pos := w.Pos(m.Decl.Pos())
+			if len(missing) == 0 {
+				r.OK("union", m.Key, "", pos, "assigns "+strings.Join(g.Fields, ", ")+" unconditionally", true)
+			} else {
+				r.Fail(VViolation, "union", m.Key, "", pos, fmt.Sprintf("assigns part of the slot group {%s} but leaves %s as an earlier setter left it: after the other setter the encoding mixes both readings (%s)", strings.Join(g.Fields, ", "), strings.Join(missing, ", "), g.Cite))
+			}
+		}
+		if n == 0 {
+			r.Fail(VViolation, "union", g.Kind, "", "-", "no setter of the slot group {"+strings.Join(g.Fields, ", ")+"} found")
 		}
 	}
 }
